@@ -254,6 +254,10 @@ class Check:
                 self.inconclusive.append("job %d (%s) ended rc=%d and no saved case reproduces it; log build/run/%s/job%d.log" % (i, job.get("name"), rc, self.prop, i))
                 self.harness_error = True
                 continue
+            if rc == 70 and "fuzz" in (job.get("target") or ""):
+                # libFuzzer's per-input timeout (exit status 70): a time budget hit on a loaded machine, never a violation
+                self.inconclusive.append("job %d (%s): libFuzzer per-input time limit hit (inconclusive, not a violation)" % (i, job.get("name")))
+                continue
             self.inconclusive.append("job %d rc=%d" % (i, rc))
             self.harness_error = True
 
